@@ -102,6 +102,13 @@ def run_ctor(ctx, g):
         cases = [(0, c["c"], c["key"]), (1, c["c"], c["key"])]
     else:
         ctx.model_check("MC_Bars", "MC_Bars.cfg", expect_actions=["EmitBar"])
+        # the constructor as a step system: the intended design meets the property, the as-built counting of signature
+        # events after normalisation is refuted (the recorded identical-repeat finding)
+        ctx.model_check("MC_BarCtor", "MC_BarCtor.cfg",
+                        expect_actions=["Normalise", "CheckCapacity", "Pad", "CheckSignatures", "Install"])
+        d = core.run_tlc("MC_BarCtor", "MC_BarCtor_asbuilt.cfg", workers=2)
+        if "Invariant RejectsWhatItMust is violated" not in d.out:
+            raise core.MachineryError("self-test: as-built switch of BarCtor no longer violates RejectsWhatItMust")
         cases = [(i, c, ("D" if i % 3 == 0 else None)) for i, c in enumerate(g["ctorCases"])]
         for _ in range(20000 if ctx.thorough else 3000):
             num, den = ctx.rng.choice([(4, 4), (3, 4), (6, 8), (2, 2), (9, 8), (1, 4), (5, 8), (7, 16)])
